@@ -129,3 +129,42 @@ def deaths(ctx):
         rp = vlib.write_replay(ctx, "realdeath", {"kind": "abrupt death of a real worker: the pool does not fail as stated", "cases": bad})
         ctx.violations.append((f"real worker death: {bad[0]['why'][0][:160]}", rp, False))
     return {"real_worker_deaths": seen}
+
+
+def forkstorm(ctx):
+    """forced shutdown of workers that fork long-lived children WHILE their tree is swept.  Model/KillTree.v: every process that exists when
+    the call is made is killed (C06_*_kill_reaches_the_whole_tree); one forked during the sweep escapes (C06_fork_during_the_sweep_escapes_refuted:
+    known finding H21)."""
+    from checks import simcommon
+    plans = [(0, 1, 0.02)] if ctx.tier == "quick" else [(0, 2, 0.02), (1, 3, 0.02), (1, 2, 0.002)]
+    seen = []
+    for use_psutil, trials, delay in plans:
+        res = runner.run_script(kill_scen.SCRIPT, vlib.REPO, timeout=120 + 60 * trials, args=("forkstorm", trials, use_psutil, delay))
+        got = runner.last_json(res)
+        why = []
+        if got is None:
+            why.append("no result: " + res["stderr"][-300:])
+        else:
+            for t in got["trials"]:
+                if t["hung"]:
+                    why.append("shutdown(kill_workers=True) had not returned after 30 s with workers that keep forking children")
+                if t["workers_alive_after"]:
+                    why.append(f"workers survive the forced shutdown: {t['workers_alive_after']}")
+                if t["old_survivors"]:
+                    why.append(f"{t['old_survivors']} of {t['children_at_the_call']} children that existed when shutdown(kill_workers=True) was called survive it")
+        esc = sum(t["survivors_forked_during_the_sweep"] for t in got["trials"]) if got else 0
+        seen.append({"psutil": use_psutil, "trials": trials, "fork_every_s": delay, "ok": not why, "escaped_forked_during_the_sweep": esc, "observed": got})
+        if why:
+            rp = vlib.write_replay(ctx, "forkstorm", {"kind": "forced shutdown of workers that keep forking deviates from Model/KillTree.v", "why": why,
+                                                      "plan": {"psutil": use_psutil, "trials": trials, "fork_every_s": delay}, "observed": got})
+            ctx.violations.append((f"real forced shutdown (forking workers): {why[0][:160]}", rp, False))
+        elif esc:
+            sig = f"descendants-forked-during-the-sweep-survive psutil[{use_psutil}]"
+            kf = simcommon.match_known("C06", sig)
+            if kf is not None:
+                if not any(k.startswith(kf["id"] + " ") for k in ctx.known):
+                    ctx.known.append(f"{kf['id']} {kf['title']} ({esc} escaped in {trials} forced shutdowns, psutil={use_psutil})")
+            else:
+                rp = vlib.write_replay(ctx, "forkstorm", {"kind": "descendants forked during the sweep survive", "signature": sig, "observed": got})
+                ctx.violations.append((sig, rp, False))
+    return {"real_forced_shutdowns_forking_workers": seen}
